@@ -443,3 +443,27 @@ def mkdir_synced_fault_table(w: World, translated_path: str):
     check(r is None or r == FINISHED or r == PUNT, "finished, punt, or nothing (retry)")
     if r is None:
         check(sync[synced]._last_gotten == 0, "'already exists': the other side is marked to be re-read before the retry")
+
+
+@lemma(props=["C10", "C02", "C03", "C07"], configs="sides", raises=["Exception"],
+       inline=["cloudsync.sync.manager:SyncManager.make_temp_file"],
+       stubs={"cloudsync.sync.manager:SyncManager._temp_file": {"results": ["str"], "raises": False, "havoc": False}})
+def temp_file_is_named_after_the_current_content(w: World):
+    """L10.7: the file that caches a download is named after the object's path and its *current* content hash, so a cached
+    download can only ever be re-used for the same content: after a fault between 'fetched' and 'written to the other side',
+    a newer edit of the same file gets a different cache name and is fetched again.  Folders get no cache file."""
+    mgr = w.mgr
+    sync = w.entry("sync")
+    ss = sync[w.changed]
+    path0, hash0, tf0, otype0 = ss.path, ss.hash, ss.temp_file, ss.otype
+    assume(path0 is not None)
+    mgr.make_temp_file(ss)
+    m = calls("md5")
+    if otype0 == DIRECTORY:
+        check(len(m) == 0 and ss.temp_file == tf0, "a folder gets no cache file")
+    elif truthy(hash0):
+        check(len(m) == 1, "the cache name is computed once")
+        arg = m[0].args[0]
+        check(arg.parts[0].utf8 == path0, "from the object's path")
+        check(arg.parts[1].packed == hash0, "and its current content hash (not the last-synced one)")
+        check(ss.temp_file is not None, "and a cache file name is recorded")
